@@ -254,6 +254,93 @@ def runout_room(state) -> int:
     return max(1, have // need)
 
 
+RANKS = '23456789TJQKA'
+
+
+def _rigged_plan(s, pol, rng):
+    """Cards for a 'rigged' deal: a board that is a made hand (straight
+    flush, quads, flush, straight, full house, wheel) and hole cards from its
+    neighbourhood (adjacent ranks, same suit, same ranks), so that playing
+    the board, counterfeits, kicker and suit questions and exact ties are
+    common instead of practically impossible."""
+    plan = pol.get('_plan')
+    if plan is not None:
+        return plan
+    avail = {repr(c) for c in s.get_dealable_cards()}
+    ranks = [r for r in RANKS if any(r + x in avail for x in 'cdhs')]
+    kind = rng.choice(['sf', 'sf', 'quads', 'flush', 'straight', 'full',
+                       'wheel', 'trips'])
+    suit = rng.choice('cdhs')
+    j = rng.randrange(max(1, len(ranks) - 4))
+    run = ranks[j:j + 5]
+    others = [x for x in 'cdhs' if x != suit]
+    if kind == 'sf':
+        board = [r + suit for r in run]
+    elif kind == 'straight':
+        board = [r + rng.choice('cdhs') for r in run]
+    elif kind == 'wheel':
+        board = [r + rng.choice('cdhs') for r in 'A2345']
+    elif kind == 'flush':
+        board = [r + suit for r in rng.sample(ranks, min(5, len(ranks)))]
+    elif kind == 'quads':
+        r = rng.choice(ranks)
+        board = [r + x for x in 'cdhs'] + [rng.choice(ranks) + suit]
+    elif kind == 'full':
+        a, b = rng.sample(ranks, 2)
+        board = [a + x for x in rng.sample('cdhs', 3)] + \
+            [b + x for x in rng.sample('cdhs', 2)]
+    else:
+        a = rng.choice(ranks)
+        board = [a + x for x in rng.sample('cdhs', 3)] + \
+            [r + rng.choice('cdhs') for r in rng.sample(ranks, 2)]
+    board = [c for k, c in enumerate(board)
+             if c in avail and c not in board[:k]]
+    rng.shuffle(board)
+    near = set()
+    for c in board:
+        r, x = c[0], c[1]
+        k = RANKS.index(r)
+        for d in (-2, -1, 1, 2):
+            if 0 <= k + d < 13:
+                near.add(RANKS[k + d] + x)
+                near.add(RANKS[k + d] + rng.choice('cdhs'))
+        for y in 'cdhs':
+            near.add(r + y)
+    near = [c for c in sorted(near) if c in avail and c not in board]
+    rng.shuffle(near)
+    rest = [c for c in sorted(avail) if c not in board and c not in near]
+    rng.shuffle(rest)
+    holes = []
+    for i in range(s.player_count):
+        h = []
+        for _ in range(7):
+            src = near if near and rng.random() < 0.6 else (rest or near)
+            if not src:
+                break
+            h.append(src.pop())
+        holes.append(h)
+    plan = {'kind': kind, 'board': board, 'holes': holes}
+    pol['_plan'] = plan
+    return plan
+
+
+def _planned(s, wanted, k):
+    """The first k planned cards that are still dealable, topped up with
+    other dealable cards."""
+    ok = {repr(c) for c in s.get_dealable_cards(k)}
+    out = []
+    while wanted and len(out) < k:
+        c = wanted.pop(0)
+        if c in ok and c not in out:
+            out.append(c)
+    for c in sorted(ok):
+        if len(out) >= k:
+            break
+        if c not in out and c not in wanted:
+            out.append(c)
+    return out[:k]
+
+
 def choose(state, avail, rng, pol):
     """Pick (name, args) among the available operations."""
     policy = pol['policy']
@@ -292,6 +379,19 @@ def choose(state, avail, rng, pol):
             cards = tuple(s.get_dealable_cards(1))
             if cards:
                 args = [repr(rng.choice(cards[:max(1, len(cards))]))]
+    elif op == 'deal_hole' and dm == 'rigged':
+        plan = _rigged_plan(s, pol, rng)
+        i = s.hole_dealee_index
+        k = len(s.hole_dealing_statuses[i])
+        cards = _planned(s, plan['holes'][i], k)
+        if len(cards) == k:
+            args = [''.join(cards), i]
+    elif op == 'deal_board' and dm == 'rigged':
+        plan = _rigged_plan(s, pol, rng)
+        k = s.board_dealing_count
+        cards = _planned(s, plan['board'], k)
+        if len(cards) == k:
+            args = [''.join(cards)]
     elif op == 'deal_hole':
         if dm == 'unknown':
             i = s.hole_dealee_index
@@ -390,7 +490,10 @@ def choose(state, avail, rng, pol):
                 return op, [''.join(map(repr, shown)), i]
         if pol.get('partial_show') and rng.random() < 0.35 \
                 and len(s.hole_cards[i]) > 1:
-            m = rng.randint(1, len(s.hole_cards[i]) - 1)
+            # (with 'empty_show' the player may also keep every card face
+            # down and stay in: he then plays the board)
+            m = rng.randint(0 if pol.get('empty_show') else 1,
+                            len(s.hole_cards[i]) - 1)
             part = rng.sample(list(s.hole_cards[i]), m)
             if s.can_show_or_muck_hole_cards(tuple(part), i):
                 return op, [''.join(map(repr, part)), i]
